@@ -268,17 +268,37 @@ type mdT struct {
 }
 
 var mds = []mdT{
+	// core alphabet (first four)
 	{Label: "none", Map: nil},
 	{Label: "disjoint", Map: map[string]string{"k": "v"}},
 	{Label: "colliding", Map: map[string]string{"a": "2"}}, // "a" is an annotation of the annotated artifact
 	{Label: "reserved", Map: map[string]string{"io.cncf.notary.x": "1"}, Reserved: true},
+	// further shapes of "under the reserved io.cncf.notary prefix" (every key that starts with that string) ...
+	{Label: "reserved-bare-prefix", Map: map[string]string{"io.cncf.notary": "1"}, Reserved: true},
+	{Label: "reserved-no-dot", Map: map[string]string{"io.cncf.notaryX": "1"}, Reserved: true},
+	{Label: "reserved-trailing-dot", Map: map[string]string{"io.cncf.notary.": "1"}, Reserved: true},
+	{Label: "reserved-mixed-with-legal", Map: map[string]string{"k": "v", "io.cncf.notary.x": "1"}, Reserved: true},
+	// ... and near misses that are NOT reserved and must be signed
+	{Label: "near-miss-one-short", Map: map[string]string{"io.cncf.notar": "1"}},
+	{Label: "near-miss-not-at-start", Map: map[string]string{"xio.cncf.notary.x": "1"}},
 }
 
 var refLabels = []string{"tag", "digest", "full-tag", "full-digest", "other-digest"}
 var formats = []string{"jws", "cose"}
 var signerKinds = []string{"generic-wrapped-chain3", "instrumented-backdated-chain2", "generic-raw-chain2"}
 
-const nOps = 5 * 4 * 2
+// alphabetT: 5 references x the first NMD metadata maps x 2 formats.
+type alphabetT struct {
+	Name string
+	NMD  int
+}
+
+var (
+	coreAlphabet = alphabetT{"core", 4}
+	fullAlphabet = alphabetT{"full", len(mds)}
+)
+
+func (a alphabetT) size() int { return 5 * a.NMD * 2 }
 
 type opT struct {
 	Ref    string `json:"ref"`      // label of refT
@@ -289,21 +309,22 @@ type opT struct {
 
 func (o opT) String() string { return o.Ref + "+" + o.MD + "+" + o.Format + "@" + o.Signer }
 
-// opAt: operation number idx (0..39) at position step of a history. The signer
+// opAt: operation number idx of the alphabet at position step of a history. The signer
 // is no dimension of its own: it rotates with (idx+step), so that every
 // (reference, metadata, format) meets every signer kind at some position.
-func opAt(idx, step int) opT {
+func (a alphabetT) opAt(idx, step int) opT {
 	fi := idx % 2
-	mi := (idx / 2) % 4
-	ri := idx / 8
+	mi := (idx / 2) % a.NMD
+	ri := idx / (2 * a.NMD)
 	return opT{Ref: refLabels[ri], MD: mds[mi].Label, Format: formats[fi], Signer: signerKinds[(idx+step)%3]}
 }
 
-func decode(i, length int) []opT {
+func (a alphabetT) decode(i, length int) []opT {
+	n := a.size()
 	ops := make([]opT, length)
 	for k := length - 1; k >= 0; k-- {
-		ops[k] = opAt(i%nOps, k)
-		i /= nOps
+		ops[k] = a.opAt(i%n, k)
+		i /= n
 	}
 	return ops
 }
@@ -1394,16 +1415,16 @@ var (
 	levelsDoneM sync.Mutex
 )
 
-func exploreLevel(r *hx.Run, kind, artName string, depth int) {
+func exploreLevel(r *hx.Run, alpha alphabetT, kind, artName string, depth int) {
 	col := &collector{}
-	n := pow(nOps, depth)
+	n := pow(alpha.size(), depth)
 	var skipped atomic.Int64
 	r.Parallel(n, func(i int) {
 		if r.Expired() {
 			skipped.Add(1)
 			return
 		}
-		c := histCase{Repository: kind, Artifact: artName, Ops: decode(i, depth)}
+		c := histCase{Repository: kind, Artifact: artName, Ops: alpha.decode(i, depth)}
 		res := runHistory(c)
 		r.Eval(res.evals)
 		if res.infra != nil {
@@ -1447,17 +1468,17 @@ func exploreLevel(r *hx.Run, kind, artName string, depth int) {
 			r.Sample(map[string]any{"repository": kind, "artifact": artName, "history": c.Ops, "successful_calls": res.successes, "last_call": res.class, "state": res.state, "violations": len(res.vs)})
 		}
 	}, func(i int, v any, stack string) {
-		c := histCase{Repository: kind, Artifact: artName, Ops: decode(i, depth)}
+		c := histCase{Repository: kind, Artifact: artName, Ops: alpha.decode(i, depth)}
 		col.add(i, viol{"history/panic", fmt.Sprintf("[%s repository, %s artifact] panic: %v\n%s", kind, artName, v, stack)}, c)
 	})
 	col.flush(r)
 	if k := skipped.Load(); k > 0 {
-		r.Capped(fmt.Sprintf("%s/%s: internal deadline, %d of %d histories of length %d not run", kind, artName, k, n, depth))
+		r.Capped(fmt.Sprintf("%s alphabet, %s/%s: internal deadline, %d of %d histories of length %d not run", alpha.Name, kind, artName, k, n, depth))
 		return
 	}
 	levelsDoneM.Lock()
-	if depth > levelsDone[kind+"/"+artName] {
-		levelsDone[kind+"/"+artName] = depth
+	if key := alpha.Name + " alphabet: " + kind + "/" + artName; depth > levelsDone[key] {
+		levelsDone[key] = depth
 	}
 	levelsDoneM.Unlock()
 }
@@ -1492,7 +1513,7 @@ func replay(r *hx.Run) {
 
 func main() {
 	r := hx.New("C11")
-	r.Rule = "every sequence of 1..d operations over the 40-operation alphabet (5 references x 4 metadata maps x 2 envelope formats; the signer kind rotates with operation number + position) is replayed on a fresh repository (mock handing out one descriptor object / on-disk OCI layout opened by registry.NewOCIRepository / oras memory store) for each of 2 artifacts; the LAST call of every history is judged against the reference model and the before-first-call snapshots (earlier calls were judged as last call of the shorter history); canonical state = (multiset of signature manifests by format and signed annotations, artifact annotations as reported for the tag); non-trivial = distinct histories of length >= 2 with at least one successful signing call"
+	r.Rule = "every sequence of 1..d operations over an alphabet of 5 references x metadata maps x 2 envelope formats (full: 10 maps incl. 5 reserved-prefix shapes and 2 near misses = 100 operations, d = 2 on every repository, thorough also d = 3 on the mock; core: the first 4 maps = 40 operations, thorough d = 3 on every repository; the signer kind rotates with operation number + position) is replayed on a fresh repository (mock handing out one descriptor object / on-disk OCI layout opened by registry.NewOCIRepository / oras memory store) for each of 2 artifacts; the LAST call of every history is judged against the reference model and the before-first-call snapshots (earlier calls were judged as last call of the shorter history); canonical state = (multiset of signature manifests by format and signed annotations, artifact annotations as reported for the tag); non-trivial = distinct histories of length >= 2 with at least one successful signing call"
 	r.Assumptions = []string{
 		"ECDSA P-256 / SHA-256 are sound; the stored envelope is checked by lib/refsig (standard library only), signing time and certificates are decoded by hand from the JWS / COSE headers",
 		"what a reference resolves to is the repository's own answer before the first call (mock: everything resolves to the artifact; stores: the tag, the artifact's digest; the memory store has the digest tagged with the annotated descriptor and the other digest tagged with the artifact's plain descriptor, oci.Store does not resolve the other digest, returns a plain descriptor for a digest and adds org.opencontainers.image.ref.name for a tag read from index.json)",
@@ -1514,22 +1535,39 @@ func main() {
 		replay(r)
 		r.Finish()
 	}
-	// quick: all histories of depth <= 2 (the second identical call is where sharing shows); depth 3 is thorough only
-	depth := map[string]int{"mock": 2, "disk": 2, "memory": 2}
+	// quick: all histories of depth <= 2 over the full alphabet (100 operations) on every repository (the second
+	// identical call is where sharing shows). thorough adds depth 3: over the core alphabet (40 operations) on every
+	// repository and over the full alphabet on the mock (the core alphabet's depths 1 and 2 are contained in the full one's).
+	type plan struct {
+		alpha alphabetT
+		depth map[string]int
+		from  int
+	}
+	plans := []plan{{fullAlphabet, map[string]int{"mock": 2, "disk": 2, "memory": 2}, 1}}
 	if r.Thorough() {
-		depth = map[string]int{"mock": 3, "disk": 3, "memory": 3}
+		plans = []plan{
+			{fullAlphabet, map[string]int{"mock": 2, "disk": 2, "memory": 2}, 1},
+			{coreAlphabet, map[string]int{"mock": 3, "disk": 3, "memory": 3}, 3},
+			{fullAlphabet, map[string]int{"mock": 3}, 3},
+		}
 		r.SetDeadline(9 * time.Minute)
 	} else {
 		r.SetDeadline(60 * time.Second)
 	}
 	kinds := []string{"mock", "disk", "memory"}
-	for d := 1; d <= 3; d++ {
-		for _, k := range kinds {
-			if d > depth[k] {
-				continue
-			}
-			for _, a := range []string{"plain", "annotated"} {
-				exploreLevel(r, k, a, d)
+	requested := map[string]int{}
+	for _, p := range plans {
+		for d := p.from; d <= 3; d++ {
+			for _, k := range kinds {
+				if d > p.depth[k] {
+					continue
+				}
+				if key := p.alpha.Name + " alphabet: " + k; p.depth[k] > requested[key] {
+					requested[key] = p.depth[k]
+				}
+				for _, a := range []string{"plain", "annotated"} {
+					exploreLevel(r, p.alpha, k, a, d)
+				}
 			}
 		}
 	}
@@ -1537,11 +1575,19 @@ func main() {
 	statesMu.Lock()
 	r.State(len(states))
 	statesMu.Unlock()
-	r.Extra["operations"] = nOps
+	r.Extra["operations"] = map[string]int{"full": fullAlphabet.size(), "core": coreAlphabet.size()}
 	r.Extra["references"] = refLabels
-	r.Extra["metadata_maps"] = []string{"none", "disjoint {k:v}", "colliding {a:2}", "reserved {io.cncf.notary.x:1}"}
+	var mdNames []string
+	for _, m := range mds {
+		rs := "legal unless it collides"
+		if m.Reserved {
+			rs = "reserved"
+		}
+		mdNames = append(mdNames, fmt.Sprintf("%s %s (%s)", m.Label, mapString(m.Map), rs))
+	}
+	r.Extra["metadata_maps"] = mdNames
 	r.Extra["signer_kinds"] = signerKinds
-	r.Extra["depth_requested"] = depth
+	r.Extra["depth_requested"] = requested
 	levelsDoneM.Lock()
 	r.Extra["depth_completed"] = levelsDone
 	levelsDoneM.Unlock()
